@@ -91,6 +91,13 @@ func (p *MACPayload) UnmarshalBinary(uplink bool, data []byte) error {
 	if dataLen > 7+int(p.FHDR.FCtrl.fOptsLen) {
 		fPort := uint8(data[7+int(p.FHDR.FCtrl.fOptsLen)])
 		p.FPort = &fPort
+
+		// MAC commands can not be present in both the FOpts and the FRMPayload,
+		// FPort=0 is therefore invalid when FOpts are set (also when the
+		// FRMPayload is empty), see also MarshalBinary.
+		if fPort == 0 && p.FHDR.FCtrl.fOptsLen > 0 {
+			return errors.New("lorawan: FPort must not be 0 when FOpts are set")
+		}
 	}
 
 	// decode the rest of the payload (if present)
